@@ -5,7 +5,8 @@ import BareProofs.C13Lemmas
 
 What is **proved** (for all strings, no bound on length) is the text surgery the code performs on top of CPython's `repr`/`float`:
 
-* `patterns_as_modelled`      the regex sources the scanners were written for are the ones in the working tree (generated table)
+* `patterns_as_modelled`      (in `BareProofs/C13Patterns.lean`, so that a changed regex breaks that obligation alone) the regex
+                              sources the scanners were written for are the ones in the working tree (generated table)
 * `strip_preserves_value`     `re.sub(r'\.0*$', '', s)` keeps the rational number denoted by any `s` of the `repr` grammar
 * `strip_integral_no_fraction` `ds.0…0` becomes `ds`, which contains no point
 * `strip_noop_on_exponent`, `strip_noop_without_trailing_dot_zeros`, `strip_noop_nonfinite`   where the clean-up is the identity
@@ -34,12 +35,6 @@ set_option linter.unusedVariables false
 
 namespace C13
 open NumText
-
-/-- The regex sources the scanners were written for are the ones in the working tree (re-extracted on every run). -/
-theorem patterns_as_modelled :
-    patternOf "value.R_NUMBER_CLEANUP" = some ("\\.0*$", 32) ∧
-    patternOf "library.R_NUMBER_CLEANUP" = some ("\\.0*$", 32) ∧
-    patternOf "parser._R_EXPR_NUMBER" = some ("^\\s*([+-]?\\d+(?:\\.\\d*)?(?:e[+-]\\d+)?)", 32) := by decide
 
 /-! ## the clean-up `\.0*$` on `repr` text -/
 
